@@ -708,7 +708,36 @@ fn run_tables<G: GroupApi>(tr: &mut Trace, rng: &mut Rng, plan: &Plan) {
     }
 }
 
+/// verification helper on challenges k = +-2^j/m and +-m/2^j (j = 127, 128; thorough: 63..129):
+/// the rational reconstruction of k has a coordinate of magnitude exactly 2^j, where
+/// truncation to 128 bits and sign handling meet.  For each k: the equation made true
+/// (R = s*G - k*Q), and made false (R + G, R = neutral).
+fn run_vh_pow2<G: GroupApi>(tr: &mut Trace, rng: &mut Rng, plan: &Plan) {
+    if G::verify_helper(G::neutral(), G::neutral(), &[0u8; 1], &[0u8; 1]).is_none() { return; }
+    let n = G::order();
+    let inv = |x: &BigUint| x.modpow(&(&n - 2u32), &n);
+    let (js, ms): (Vec<usize>, Vec<u32>) = if plan.scalars > 100 {
+        (vec![63, 64, 65, 126, 127, 128, 129], vec![1, 3, 5, 7, 255]) } else { (vec![127, 128], vec![1, 3]) };
+    let mut m = Mach::<G>::new(tr);
+    let mut ok = m.cst(0, "NEUTRAL") && m.cst(1, "BASE") && m.mulgen(2, &rng.bytes(G::SC_LEN), 0);
+    for j in js { for mm in ms.iter() { for form in 0..2 { for sign in 0..2 {
+        if !ok { m = Mach::<G>::new(tr); ok = m.cst(0, "NEUTRAL") && m.cst(1, "BASE") && m.mulgen(2, &rng.bytes(G::SC_LEN), 0); }
+        let t = (BigUint::from(1u32) << j) % &n;
+        let mb = BigUint::from(*mm);
+        let kk = if form == 0 { (&t * inv(&mb)) % &n } else { (&mb * inv(&t)) % &n };
+        let k = to_le(&(if sign == 0 { kk } else { (&n - kk) % &n }), G::SC_LEN);
+        let s = rng.bytes(G::SC_LEN);
+        ok = ok && m.mulgen(8, &s, 0) && m.mul(9, 2, &k, 0) && m.bin("sub", 10, 8, 9, 0) && m.bin("add", 11, 10, 1, 0);
+        if ok {
+            m.verify_helper(2, 10, &s, &k);
+            m.verify_helper(2, 11, &s, &k);
+            m.verify_helper(2, 0, &s, &k);
+        }
+    } } } }
+}
+
 fn run_mamv<G: GroupApi>(tr: &mut Trace, rng: &mut Rng, plan: &Plan) {
+    run_vh_pow2::<G>(tr, rng, plan);
     let scalars = scalar_classes::<G>(rng, plan.scalars);
     let sp = G::special_encodings();
     let mut m = Mach::<G>::new(tr);
@@ -732,7 +761,16 @@ fn run_mamv<G: GroupApi>(tr: &mut Trace, rng: &mut Rng, plan: &Plan) {
         // perturbed variants (R + low-order/special point, R + G) for which it may or may not hold.
         if i % 2 == 0 && ok {
             let n = G::order();
-            let k = if rng.chance(2, 3) {
+            let k = if rng.chance(1, 3) {
+                // exact powers of two over / under small odd integers: reconstructions with a
+                // coordinate of magnitude exactly 2^127 / 2^128 (sign and truncation boundaries)
+                let j = *rng.pick(&[63usize, 64, 126, 127, 128, 129]);
+                let t = (BigUint::from(1u32) << j) % &n;
+                let m = BigUint::from(*rng.pick(&[1u32, 3, 5, 7, 9, 255, 65537]));
+                let inv = |x: &BigUint| x.modpow(&(&n - 2u32), &n);
+                let kk = if rng.chance(1, 2) { (&t * inv(&m)) % &n } else { (&m * inv(&t)) % &n };
+                to_le(&(if rng.chance(1, 2) { kk } else { (&n - kk) % &n }), G::SC_LEN)
+            } else if rng.chance(1, 2) {
                 let cls = [1usize, 63, 64, 65, 126, 127, 128, 129];
                 let mk = |rng: &mut Rng, bits: usize| -> BigUint {
                     let x = BigUint::from_bytes_le(&rng.bytes(bits / 8 + 1)) % (BigUint::from(1u32) << bits);
